@@ -38,9 +38,8 @@ Keep == "keep"
 
 \* ---------------------------------------------------------------- hashes (injective constructors)
 RootOf(st)                     == <<"root", st>>
-\* WarpTickPatchV1::new(policy, rule_pack, Committed, in_slots, out_slots, ops).digest();
-\* the abstract op list stands for ops + in/out slots
-PatchDigest(ops, policy, pack) == <<"pd", ops, policy, pack>>
+\* WarpTickPatchV1::new(policy, rule_pack, Committed, in_slots, out_slots, ops).digest()
+PatchDigest(ops, slots, policy, pack) == <<"pd", ops, slots, policy, pack>>
 \* snapshot.rs compute_commit_hash_v2(state_root, parents, patch_digest, policy_id)
 CommitId(parentCids, root, pd, policy) == <<"cid", parentCids, root, pd, policy>>
 
@@ -51,10 +50,12 @@ ApplyOps(st, ops) == [k \in DOMAIN st |-> IF ops[k] = Keep THEN st[k] ELSE ops[k
 Ref(w, t, cid) == [w |-> w, tick |-> t, cid |-> cid]
 ParentCids(e) == [i \in 1..Len(e.parents) |-> e.parents[i].cid]
 
-\* WorldlineTickPatchV1 (header + ops + digest); `ops` is the abstract patch
+\* WorldlineTickPatchV1 (header + warp + ops + in/out slots + digest); `ops` is the abstract patch,
+\* `slots` stands for in_slots/out_slots (the slots the patch writes)
+WrittenSlots(ops) == {k \in DOMAIN ops : ops[k] # Keep}
 MkPatch(ops, policy, pack, gtick, plan, decision, rewrites) ==
-  [ops |-> ops, policy |-> policy, pack |-> pack, gtick |-> gtick, plan |-> plan, decision |-> decision,
-   rewrites |-> rewrites, pdigest |-> PatchDigest(ops, policy, pack)]
+  [ops |-> ops, slots |-> WrittenSlots(ops), warp |-> "w0", policy |-> policy, pack |-> pack, gtick |-> gtick, plan |-> plan,
+   decision |-> decision, rewrites |-> rewrites, pdigest |-> PatchDigest(ops, WrittenSlots(ops), policy, pack)]
 
 \* The entry super_tick_inner builds for head `h` of worldline `w` on top of the
 \* materialized state `st` (its frontier) and the current tip `tip` (None or a Ref):
@@ -64,7 +65,7 @@ CoordEntry(w, h, t, gtick, tip, st, ops, policy, outs) ==
   LET parents == IF tip = None THEN <<>> ELSE <<tip>>
       post    == ApplyOps(st, ops)
       decision == <<"dec", w, t, ops>>
-      patch   == MkPatch(ops, policy, "pack", gtick, <<"plan", w, t, ops>>, decision, <<"rw", w, t, ops>>)
+      patch   == MkPatch(ops, policy, <<"pack">>, gtick, <<"plan", w, t, ops>>, decision, <<"rw", w, t, ops>>)
       root    == RootOf(post)
   IN [w |-> w, tick |-> t, gtick |-> gtick, head |-> [w |-> w, h |-> h], parents |-> parents, kind |-> "LocalCommit",
       root |-> root, pd |-> patch.pdigest,
@@ -118,11 +119,19 @@ AppendEntry(e) ==
 \* and are not part of the replayed value.)
 MatU0 == [st |-> U0, hist |-> <<>>, lm |-> <<>>, txc |-> 0]
 
-\* replay_artifacts_for_entry: the Snapshot + TickReceipt pushed to tick_history
+\* replay_artifacts_for_entry: the (Snapshot, TickReceipt, replay WarpTickPatchV1) pushed to tick_history
 SnapshotOf(e) ==
   [cid |-> e.cid, root |-> e.root, parents |-> ParentCids(e), plan |-> e.patch.plan, decision |-> e.patch.decision,
    rewrites |-> e.patch.rewrites, pd |-> e.pd, policy |-> e.patch.policy, tx |-> e.tick + 1,
-   receipt |-> IF e.receipt = None THEN [tx |-> e.tick + 1, digest |-> "empty"] ELSE e.receipt]
+   receipt |-> IF e.receipt = None THEN [tx |-> e.tick + 1, digest |-> <<"empty">>] ELSE e.receipt,
+   rpatch |-> [ops |-> e.patch.ops, slots |-> e.patch.slots, policy |-> e.patch.policy, pack |-> e.patch.pack]]
+\* ... which fails (typed ReplayError) when the stored digests or the receipt disagree
+ArtifactsError(e) ==
+  IF e.pd # e.patch.pdigest THEN "PatchDigestMismatch"
+  ELSE IF PatchDigest(e.patch.ops, e.patch.slots, e.patch.policy, e.patch.pack) # e.patch.pdigest THEN "PatchDigestMismatch"
+  ELSE IF e.receipt # None /\ e.receipt.tx # e.tick + 1 THEN "ReceiptTxMismatch"
+  ELSE IF e.receipt # None /\ e.receipt.digest # e.patch.decision THEN "ReceiptDigestMismatch"
+  ELSE "ok"
 
 Ok(m)        == [ok |-> TRUE, err |-> "", at |-> 0, mat |-> m]
 Fail(err, t) == [ok |-> FALSE, err |-> err, at |-> t, mat |-> MatU0]
@@ -131,13 +140,11 @@ Fail(err, t) == [ok |-> FALSE, err |-> err, at |-> t, mat |-> MatU0]
 \* Order of checks as in the code.
 ReplayOne(m, e) ==
   IF e.patch = None THEN Fail("MissingPatch", e.tick)
+  ELSE IF e.patch.warp # "w0" THEN Fail("ApplyError", e.tick)      \* apply_to_worldline_state: WarpMismatch
   ELSE LET st2 == ApplyOps(m.st, e.patch.ops) IN
     IF RootOf(st2) # e.root THEN Fail("StateRootMismatch", e.tick)
     ELSE IF CommitId(ParentCids(e), RootOf(st2), e.pd, e.patch.policy) # e.cid THEN Fail("CommitHashMismatch", e.tick)
-    ELSE IF e.pd # e.patch.pdigest THEN Fail("PatchDigestMismatch", e.tick)
-    ELSE IF PatchDigest(e.patch.ops, e.patch.policy, e.patch.pack) # e.patch.pdigest THEN Fail("PatchDigestMismatch", e.tick)
-    ELSE IF e.receipt # None /\ e.receipt.tx # e.tick + 1 THEN Fail("ReceiptTxMismatch", e.tick)
-    ELSE IF e.receipt # None /\ e.receipt.digest # e.patch.decision THEN Fail("ReceiptDigestMismatch", e.tick)
+    ELSE IF ArtifactsError(e) # "ok" THEN Fail(ArtifactsError(e), e.tick)
     ELSE Ok([st |-> st2, hist |-> Append(m.hist, SnapshotOf(e)), lm |-> e.outputs, txc |-> e.tick + 1])
 
 \* advance_replay_state(start a, target b): a = b returns the state untouched (no finalize);
@@ -172,7 +179,8 @@ CkptVerdict(w, t, m) ==
   ELSE IF Len(m.hist) # t THEN "CheckpointReplayMetadataMismatch"
   ELSE IF m.txc # t THEN "CheckpointReplayMetadataMismatch"
   ELSE IF t = 0 /\ m.lm # <<>> THEN "CheckpointReplayMetadataMismatch"
-  ELSE IF t > 0 /\ (\E i \in 1..t : m.hist[i] # SnapshotOf(entries[w][i])) THEN "CheckpointReplayMetadataMismatch"
+  ELSE IF t > 0 /\ (\E i \in 1..t : entries[w][i].patch = None \/ ArtifactsError(entries[w][i]) # "ok" \/ m.hist[i] # SnapshotOf(entries[w][i]))
+       THEN "CheckpointReplayMetadataMismatch"
   ELSE IF t > 0 /\ m.lm # entries[w][t].outputs THEN "CheckpointReplayMetadataMismatch"
   ELSE "ok"
 
@@ -328,6 +336,65 @@ AbsSeek(len, ticks, c, target) ==
 Step ==
   /\ LET r == StepResult(cur) IN cur' = r.cur /\ last' = r.out
   /\ UNCHANGED storeVars
+
+\* ---------------------------------------------------------------- C05: tampering and re-verification
+\* A value different from x and from every honest value of the model.
+Flip(x) == <<"tampered", x>>
+
+\* What re-verification returns for a tick, split into the part the chain is meant to protect and the
+\* diagnostic digests that merkle-commit.md (Decision 3) leaves outside commit id v2.
+CoreSnap(s) == [cid |-> s.cid, root |-> s.root, parents |-> s.parents, pd |-> s.pd, policy |-> s.policy, tx |-> s.tx, receipt |-> s.receipt, rpatch |-> s.rpatch]
+DiagSnap(s) == [plan |-> s.plan, decision |-> s.decision, rewrites |-> s.rewrites]
+CoreOf(m) == [st |-> m.st, hist |-> [i \in 1..Len(m.hist) |-> CoreSnap(m.hist[i])], lm |-> m.lm, txc |-> m.txc]
+DiagOf(m) == [i \in 1..Len(m.hist) |-> DiagSnap(m.hist[i])]
+
+\* Replay over an explicit entry table / checkpoint table (the rebuilt, possibly tampered store)
+ReplayIn(es, cks, w, target) ==
+  IF w \notin DOMAIN es THEN [ok |-> FALSE, err |-> "WorldlineNotFound", at |-> target, mat |-> MatU0]
+  ELSE IF target > Len(es[w]) THEN [ok |-> FALSE, err |-> "HistoryUnavailable", at |-> target, mat |-> MatU0]
+  ELSE LET below == {c \in cks[w] : c.tick <= target}
+           c == IF below = {} THEN None ELSE CHOOSE x \in below : \A y \in below : y.tick <= x.tick
+           expRoot(t) == IF t = 0 THEN RootOf(U0) ELSE es[w][t].root
+       IN IF c = None THEN LET r == AdvanceSeq(es[w], MatU0, 0, target) IN [ok |-> r.ok, err |-> r.err, at |-> r.at, mat |-> r.mat]
+          ELSE IF c.root # expRoot(c.tick) \/ RootOf(c.mat.st) # expRoot(c.tick)
+               THEN [ok |-> FALSE, err |-> "CheckpointStateRootMismatch", at |-> c.tick, mat |-> MatU0]
+               ELSE LET r == AdvanceSeq(es[w], c.mat, c.tick, target) IN [ok |-> r.ok, err |-> r.err, at |-> r.at, mat |-> r.mat]
+
+\* validate_shared_entry + validate_local_commit_entry over an explicit entry table
+VerdictIn(es, w, e) ==
+  IF e.w # w THEN "EntryWorldlineMismatch"    \* the verifier rebuilds worldline w: an entry claiming another worldline is not its history
+  ELSE IF e.w \notin DOMAIN es THEN "WorldlineNotFound"
+  ELSE IF e.tick # Len(es[w]) THEN "TickGap"
+  ELSE IF \E i \in 1..Len(e.parents) :
+            LET p == e.parents[i] IN p.w \notin DOMAIN es \/ p.tick < 0 \/ p.tick + 1 > Len(es[p.w]) THEN "MissingParentRef"
+  ELSE IF \E i \in 1..Len(e.parents) :
+            LET p == e.parents[i] IN es[p.w][p.tick + 1].cid # p.cid THEN "ParentCommitHashMismatch"
+  ELSE IF e.head = None THEN "LocalCommitMissingHeadKey"
+  ELSE IF e.head.w # e.w THEN "HeadWorldlineMismatch"
+  ELSE IF e.patch = None THEN "LocalCommitMissingPatch"
+  ELSE IF e.receipt # None /\ e.receipt.tx # e.tick + 1 THEN "LocalCommitReceiptTxMismatch"
+  ELSE IF e.receipt # None /\ e.receipt.digest # e.patch.decision THEN "LocalCommitReceiptDigestMismatch"
+  ELSE IF e.kind # "LocalCommit" THEN "InvalidLocalCommitEventKind"
+  ELSE "ok"
+
+\* Rebuild worldline w of a store from a retained entry sequence `seq` (the other worldlines `others`
+\* are intact): append one by one; the first refusal ends the rebuild.
+RECURSIVE RebuildFrom(_, _, _, _)
+RebuildFrom(es, w, seq, i) ==
+  IF i > Len(seq) THEN [ok |-> TRUE, err |-> "", at |-> 0, es |-> es]
+  ELSE LET v == VerdictIn(es, w, seq[i])
+       IN IF v # "ok" THEN [ok |-> FALSE, err |-> v, at |-> i - 1, es |-> es]
+          ELSE RebuildFrom([es EXCEPT ![w] = Append(@, seq[i])], w, seq, i + 1)
+Rebuild(others, w, seq) == RebuildFrom([x \in DOMAIN others \cup {w} |-> IF x = w THEN <<>> ELSE others[x]], w, seq, 1)
+
+\* Outcome of re-verifying tick t of the rebuilt worldline against the original materialization `orig`:
+\*   "err:<Variant>"  typed rejection;  "same" exactly the original result;
+\*   "diff_diag" same protected result, different diagnostic digests;  "diff_core" a different result accepted
+Classify(r, orig) ==
+  IF ~r.ok THEN "err:" \o r.err
+  ELSE IF CoreOf(r.mat) # CoreOf(orig) THEN "diff_core"
+  ELSE IF DiagOf(r.mat) # DiagOf(orig) THEN "diff_diag"
+  ELSE "same"
 
 \* ---------------------------------------------------------------- properties
 \* C07: the cursor's materialized state is the fold of the history, whatever path produced it
